@@ -107,6 +107,9 @@ func (t *tr2) identExpr(x *ast.Ident) string {
 		if _, ok := isSumList(ty); ok {
 			return "[]"
 		}
+		if _, ok := seqElem(ty); ok {
+			return "[]"
+		}
 		t.fail(x, "nil of unsupported type %s", ty)
 		return "tt"
 	}
@@ -931,6 +934,19 @@ func (t *tr2) call(x *ast.CallExpr, bs *[]bind) string {
 			return "(go_len " + rv + ")"
 		case callee.Name() == "AppendTo" && len(x.Args) == 1:
 			return "(" + t.expr(x.Args[0], bs) + " ++ " + rv + ")"
+		case callee.Name() == "Chunk" && len(x.Args) == 2:
+			// Body.Chunk(off, n): both implementations are chunkView(<encoded bytes>, off, n)
+			if cv := callee.Pkg().Scope().Lookup("chunkView"); cv != nil {
+				if fi, ok := t.g.fns[cv.(*types.Func)]; ok && fi.seq <= t.curSeq {
+					off := t.expr(x.Args[0], bs)
+					n := t.expr(x.Args[1], bs)
+					tmp := t.freshTmp()
+					*bs = append(*bs, bind{pat: tmp, rhs: "(" + t.q(fi.mod, fi.name) + " " + rv + " " + off + " " + n + ")"})
+					return tmp
+				}
+			}
+			t.fail(x, "Body.Chunk needs the translated chunkView (register it first)")
+			return "0"
 		}
 		t.fail(x, "method %s of an abstract-bytes interface is not modelled", callee.Name())
 		return "0"
